@@ -21,7 +21,7 @@ Record case := mkCase {
   k_pods : list (pid * mfkind);
   k_steps : list (step * obs);
   k_smoke : list (list pod);   (* final stores of runs with real concurrent reconciles (validation only) *)
-  k_race_free : bool           (* the race detector stayed silent (true when it was not used) *)
+  k_race_free : bool           (* concurrent runs: no call failed, and the race detector (when used) stayed silent *)
 }.
 
 (** ** equality on observables *)
